@@ -1,5 +1,7 @@
 import ShVerif.Model.C27
 import ShVerif.Proofs.C27
+import ShVerif.Gen.C27Writes
+import ShVerif.Expect.C27Writes
 /-
   C27 — Subshells cannot change the parent shell.  Property theorems.
 
@@ -162,6 +164,17 @@ theorem frame_partial (g : Grows) (h : Heap) (p : Runner) (bg : Bool) (ops : Lis
     have r := run_inv ops s.2 (Or.inr ⟨rfl, safe⟩) e
     have fr := s.1.trans r.1
     exact ⟨fun i hi => fr.strs.getElem? hi, fun i hi => fr.ints.getElem? hi, fun i hi => fr.maps.getElem? hi⟩
+
+/-! ### The vocabulary is complete (regenerated table) -/
+
+/-- Every syntactic write site of the shell state in package interp — calls of writeEnv.Set,
+    setVar*, delVar, unsetElem, setFunc and writes to Runner.{Params, Dir, opts, alias, Funcs,
+    dirStack, writeEnv, Vars, inFunc}, regenerated from the working tree on every run — is one of
+    the reviewed sites of `Expect/C27Writes.lean`, each mapped to the modelled operation that
+    covers it, and no reviewed site has disappeared. -/
+theorem vocabulary_complete :
+    ShVerif.Gen.C27Writes.sites = ShVerif.Expect.C27Writes.expected.map (·.site) := by
+  decide +kernel
 
 /-! ### Non-vacuity -/
 
